@@ -14,15 +14,15 @@ SPEC = {
         'a cut before the database file of a wallet under creation is complete yields no wallet at all (class creation-incomplete), not a failure',
     ],
     'stages': [
-        gen('vh_c43', 'c43_wallet_persist', 224, 4000, min_cases_quick=32, max_seconds_quick=600,
+        gen('vh_c43', 'c43_wallet_persist', 224, 4000, min_cases_quick=32, max_seconds_quick=300,
             floors={'restart-with-transactions': 0.4, 'op:send': 0.15, 'op:removetxs': 0.01, 'op:deladdr': 0.03, 'op:lockcoin': 0.15, 'op:import': 0.15, 'encrypted': 0.1},
             rule='wallet histories ending with a restart; canonical dump before == after; non-trivial = restart with >=1 wallet transaction, >=5 mutating ops of >=4 kinds; distinct = op-kind sequence'),
-        gen('vh_c43', 'c43_lockcoins', 192, 4000, min_cases_quick=32, max_seconds_quick=300,
+        gen('vh_c43', 'c43_lockcoins', 192, 4000, min_cases_quick=32, max_seconds_quick=150,
             floors={'restart': 0.4, 'relock': 0.2},
             rule='lock/unlock/re-lock/restart sequences over 3 outpoints against the model of the lockunspent documentation; non-trivial = restart with a persistent lock + >=1 unlock'),
         custom('bin/crashsim/c43_worker.py', 96, 3200, name='c43_crash_images', needs=[('san', 'vh_c43')],
                min_cases_quick=8, floors={'cut-inside-atomic-group': 0.1, 'image-loaded': 0.5},
-               hard_timeout_quick=2400, max_seconds_quick=420, max_seconds_thorough=5400,
+               hard_timeout_quick=2400, max_seconds_quick=300, max_seconds_thorough=5400,
                rule='1 recorded wallet workload per worker (6 in thorough) incl. wallet creation; two thirds of the cuts inside operations the statement lists as one database '
                     'transaction; kill + power-loss images; oracle: database opens, every atomic group of the interrupted operation is entirely as in the snapshot before or after, '
                     'LoadExisting succeeds; non-trivial = an atomic group with >=2 changed rows was judged; distinct = (workload, cut index, mode)'),
